@@ -580,6 +580,42 @@ def conjugate_pair_network(ctx, sr, FO):
     return {'symmetry': net['symmetry'], 'topology': 'conjugate_pair', 'label_kind': net['label_kind'], 'tensors': order}
 
 
+def conjugate_network(ctx, sr, FO):
+    """{x, y, conj(y), conj(x)} with x - y bonded, every dangling leg contracted with its conjugate: among the
+    routes is "ket network, bra network, overlap", whose label list [a, b, b+, a+] holds NESTED conjugate pairs
+    (after the inner pair is annihilated the outer pair becomes adjacent).  The elements of the conjugates are read
+    from the implementation (conj belongs to C10); what is checked is that all routes agree with each other and
+    with the independent reference."""
+    rng = ctx.rng
+    for _ in range(30):
+        net = gen_network(rng, n=2, topo='chain')
+        if all(t['odd'] and t['label'] is not None for t in net['tensors']):
+            break
+    else:
+        return None
+    count = {}
+    for t in net['tensors']:
+        for nm in t['legs']:
+            count[nm] = count.get(nm, 0) + 1
+    # (names starting with 'b' are bonds for the reference: the dangling legs of the ket become bonds to the bra)
+    ren = lambda nm: nm if count[nm] == 2 else 'bk' + nm
+    out = [dict(t, legs=[ren(nm) for nm in t['legs']]) for t in net['tensors']]
+    bras = []
+    for t in net['tensors']:
+        one = {'symmetry': net['symmetry'], 'topology': 'single', 'label_kind': net['label_kind'], 'tensors': [t]}
+        (x, _), = build_arrays(sr, FO, one)
+        xc = x.conj().phase_sync()
+        bras.append({'legs': [nm + 'c' if count[nm] == 2 else ren(nm) for nm in t['legs']],
+                     'indices': [{'chargemap': ix['chargemap'], 'dual': not ix['dual']} for ix in t['indices']],
+                     'charge': xc.charge, 'odd': t['odd'], 'label': t['label'], 'label_dual': not t['label_dual'],
+                     'blocks': [[list(sc), list(np.asarray(b).shape), [float(v) for v in np.asarray(b).reshape(-1)]]
+                                for sc, b in xc.blocks.items()]})
+    tensors = out + bras[::-1]
+    if rng.random() < 0.3:
+        rng.shuffle(tensors)
+    return {'symmetry': net['symmetry'], 'topology': 'ket-bra network', 'label_kind': net['label_kind'], 'tensors': tensors}
+
+
 def shrink_route(sr, FO, net, base_steps, steps):
     """drop variations one at a time while the disagreement persists"""
     def bad(s):
@@ -730,6 +766,16 @@ def run(ctx):
         net = conjugate_pair_network(ctx, sr, FO)
         rep = check_network(ctx, sr, FO, net, nvar, stats)
         stats['conjugate_pair_networks'] = stats.get('conjugate_pair_networks', 0) + 1
+        if rep is not None:
+            found.append(rep)
+    for k in range(nnets // 6):
+        if len(found) >= 4:
+            break
+        net = conjugate_network(ctx, sr, FO)
+        if net is None:
+            continue
+        rep = check_network(ctx, sr, FO, net, nvar, stats)
+        stats['ket_bra_networks'] = stats.get('ket_bra_networks', 0) + 1
         if rep is not None:
             found.append(rep)
     what = {'two_routes': 'two contraction routes of the same fermionic network give different results',
